@@ -4,7 +4,7 @@ from dataclasses import dataclass
 from pathlib import Path
 from typing import Any, Optional, Union
 
-tag_name_regex = re.compile(r"^[_a-z][0-9_a-z]*$", re.IGNORECASE)
+tag_name_regex = re.compile(r"^[_a-z][0-9_a-z]*\Z", re.IGNORECASE | re.ASCII)
 
 
 @dataclass
